@@ -5,10 +5,13 @@ check(
     "every join order yields the same ordered replica list (all n! orders up to 6 nodes, sampled above), lists have min(rf, n) distinct members of the membership, "
     "per-key rf overrides are heads of one preference order, adding/removing one node only inserts/removes that node in the lists that involve it, "
     "and a ring after any add/remove history equals a fresh ring of the same membership; and to: GossipRouter (new / from_config) and "
-    "GossipState::queue_deltas deliver every delta to get_replicas(key) minus the sender exactly once and to nobody else, for every member as sender. "
+    "GossipState::queue_deltas deliver every delta to get_replicas(key) minus the sender exactly once and to nobody else, for every member as sender; "
+    "the production GossipManager sender loops and server (loopback sockets) and the production GossipActor, driven through its handle with generated mailbox sequences "
+    "(delta batches and bursts, joins/leaves as ring update + set_router, drains, ticks, control messages, harness-owned interleaving on a current-thread runtime), "
+    "hand every delta to the responsible replicas of the membership in force when it was enqueued (two-sided bounds for updates in flight during a change that moves their key). "
     "Silence means no counterexample in the explored space, not absence. The from_config off-by-one (KF-C19-01) is listed and searched past.",
     "HashRing::get_replicas is the routing oracle (as the property states); SipHash ring positions never collide; from_config's convention is ids 1..=n with peers in id order; "
-    "GossipActor/network delivery after drain_outbound is out of scope",
+    "the actor is scheduled at mailbox granularity only (it runs when the case awaits); real multi-thread schedules, MAX_OUTBOUND_QUEUE overflow and membership changes without a matching set_router are out of scope",
     "property-based testing (proptest, shrinking to replay files) + exhaustive permutation enumeration",
     "DESIGN.md §3 C19",
 )
